@@ -543,6 +543,14 @@ def h7_ttcmap(timeout=200, part=None, **kw):
                          timeout, concretize=conc, shims={"namespace_shims": shims + ["pdffont.struct.unpack -> big-endian arithmetic", "FileUnicodeMap -> recording stub"]}, part=part, int_lo=-1, int_hi=70000)
 
 
+def h8_getfont(timeout=150, **kw):
+    """composite fonts that share one descendant CIDFont (only one of them has a ToUnicode map): every 3-call get_font history gives each font the text it has in isolation (C12.H4, run here as well)"""
+    from harness import C12
+    r = C12.h4_getfont(timeout=timeout)
+    r["harness"] = "H8_getfont"
+    return r
+
+
 def replay(harness, inp):
     import pdfminer.cmapdb as cm
     if harness == "H1_identity":
@@ -627,6 +635,9 @@ def replay(harness, inp):
             cm.CMapDB._cmap_cache.update(c1)
             cm.CMapDB._umap_cache.clear()
             cm.CMapDB._umap_cache.update(c2)
+    if harness == "H8_getfont":
+        from harness import C12
+        return C12.replay("H4_getfont", inp)
     if harness == "H3_unichr":
         return core.replay_by_choices(h3_unichr, {}, inp["_choices"])
     if harness == "H7_ttcmap":
@@ -741,4 +752,5 @@ def jobs(tier):
     for v in (0, 1):
         J.append(Job("H6_advance:%s" % "HV"[v], "h6_advance", {"vertical": v}, 300, "H6_advance"))
     J.append(Job("H7_ttcmap", "h7_ttcmap", {}, 300))
+    J.append(Job("H8_getfont", "h8_getfont", {}, 200))
     return J
